@@ -35,7 +35,7 @@ CHECKS = {
          "runtime monitor: recorded-authorisation replay with principal substitution over the full entry-point x principal x history matrix"),
  "C07": ("Runtime monitoring, finite matrix enumerated completely: 16 user-facing entry points x authorisers (named address, counterparty, contract "
          "owner, stranger, nobody, everyone but the named address, named address for other arguments - one variant per argument position), states without "
-         "allowance / with minter or owner as spender / negative mints where nobody may succeed, states in which the named address has pre-approved the contracts involved, plus the contract-as-caller variant through a forwarding proxy.",
+         "allowance / with minter or owner as spender / negative mints where nobody may succeed, states in which the named address has pre-approved the contracts involved, lapsed approvals whose entry is still alive, plus the contract-as-caller variant through a forwarding proxy.",
          "runtime monitor: recorded-authorisation replay with authoriser substitution over the entry-point x authoriser matrix + proxy variant"),
  "C08": ("Runtime monitoring, exhaustive within stated bounds: every rotation history of bounded length for every retention setting (0 .. u64::MAX) "
          "and number of initial sets, plus sampled long histories (20..45 rotations, retention around 16 and 33), with ledger advancement between steps; after every step every installed set is probed on every path with fresh proofs and with byte-identical "
@@ -64,7 +64,7 @@ CHECKS = {
          "runtime monitor: event-content oracle + ledger diff"),
  "C14": ("Runtime monitoring: balance model over all (token, holder) pairs stepped with every gas-service operation under exactly specified "
          "authorisation (roles may coincide; receivers include the service, the collector and the owner); one announcement of the right kind with "
-         "the same token and amount per movement; offline conservation checker over announced amounts.",
+         "the same token and amount per movement; entry points outside the pinned interface are called as a stranger and as the role holders, after which the collector is whoever the contract names; offline conservation checker over announced amounts.",
          "runtime monitor: balance reference model + offline conservation over event log"),
  "C15": ("Runtime monitoring: migration-window model checked on all five production contracts and a test target, run natively, over every "
          "bounded-length sequence over {upgrade, migrate} x {owner, former owner, stranger, nobody} + mid-history ownership transfer (exhaustive in "
@@ -118,7 +118,7 @@ manifest = {
     "checks": checks,
     "notes": ("All 18 properties are decided by runtime monitors written for this task (no Miri/ASan: the nightly toolchain cannot build the Soroban dependency tree offline; valgrind memcheck is used for C10). "
               "Two genuine defects were repaired in /repo with 'fix:' commits (ff606be C12, 03dc987 C16); two are recorded in KNOWN_FINDINGS.txt (C04, C11) because their repair would break the unedited suite. "
-              "Sensitivity is documented in DESIGN.md §10: 141 hand mutants, 234 independently written and confirmed seeded changes under seeded/, 17 property-preserving changes that must stay silent."),
+              "Sensitivity is documented in DESIGN.md §10: 144 hand mutants, 270 independently written and confirmed seeded changes under seeded/, 17 property-preserving changes that must stay silent."),
     "not_applicable": [],
 }
 json.dump(manifest, open(os.path.join(ROOT, "MANIFEST.json"), "w"), indent=1)
